@@ -184,12 +184,14 @@ func (e *Exec) adoptPreState(s *State, o *State) {
 func (e *Exec) strID(v Val) string {
 	switch x := v.(type) {
 	case StrV:
+		e.smu.Lock()
 		id, ok := e.strIntern[x.S]
 		if !ok {
 			id = 1000000 + len(e.strIntern)
 			e.strIntern[x.S] = id
 			e.strNames = append(e.strNames, x.S)
 		}
+		e.smu.Unlock()
 		return fmt.Sprint(id)
 	case SymStr:
 		return x.T
@@ -357,17 +359,22 @@ func (e *Exec) anyOf(s *State, t types.Type, hint string) Val {
 		for i := range el {
 			el[i] = e.anyOf(s, u.Elem(), fmt.Sprintf("%s_%d", hint, i))
 		}
+		e.hmu.Lock()
 		e.nextGlobalObj++
 		id := 1<<30 + e.nextGlobalObj
 		e.globalHeap[id] = ArrV{el}
+		e.hmu.Unlock()
 		n := e.sol.fresh("len_"+hint, false)
 		e.sol.axiom(fmt.Sprintf("(and (>= %s 0) (<= %s %d))", n, n, L))
 		return SliceV{ID: id, Len: L, Cap: L, SymLen: n}
 	case *types.Pointer:
 		if _, isStruct := u.Elem().Underlying().(*types.Struct); isStruct && !strings.Contains(u.Elem().String(), "codec/types.Any") {
+			inner := e.anyOf(s, u.Elem(), hint)
+			e.hmu.Lock()
 			e.nextGlobalObj++ // pre-state objects live in a path-independent heap region
 			id := 1<<30 + e.nextGlobalObj
-			e.globalHeap[id] = e.anyOf(s, u.Elem(), hint)
+			e.globalHeap[id] = inner
+			e.hmu.Unlock()
 			return Ptr{ID: id}
 		}
 		return Ptr{}
@@ -444,6 +451,7 @@ func (e *Exec) storeGet(s *State, st StoreV, key BytesV) GetResult {
 	}
 	if !closed {
 		mk := st.Name + "|" + keyString(key)
+		e.mu.Lock()
 		ent, seen := e.lazyMemo[mk]
 		if !seen {
 			p := e.sol.fresh("present_"+st.Name, true)
@@ -452,6 +460,7 @@ func (e *Exec) storeGet(s *State, st StoreV, key BytesV) GetResult {
 			e.lazyMemo[mk] = ent
 			e.stats["lazy-records"]++
 		}
+		e.mu.Unlock()
 		// insert the pre-state entry at the FRONT (oldest) so later writes shadow it
 		for _, ly := range env.L { // the pre-state is shared by all open context layers
 			if !ly.Closed {
@@ -632,6 +641,8 @@ func (e *Exec) iteVal(c string, a, b Val) Val {
 }
 
 func (e *Exec) materialise(s *State, lz *LazyRec, want types.Type) Val {
+	e.mu.Lock()
+	defer e.mu.Unlock()
 	if lz.Mat == nil {
 		lz.Mat = e.anyOf(s, want, shortType(want))
 		lz.T = want
@@ -690,8 +701,11 @@ func (e *Exec) balance(s *State, cid int, addr, denom string) string {
 // bal0 non-negativity is asserted per referenced (address, denom) pair (no quantifier)
 func (e *Exec) noteBal0(addr, denom string) {
 	k := "bal0|" + addr + "|" + denom
-	if e.stats[k] == 0 {
-		e.stats[k] = 1
+	e.smu.Lock()
+	first := !e.seen[k]
+	e.seen[k] = true
+	e.smu.Unlock()
+	if first {
 		e.sol.axiom("(>= (bal0 " + addr + " " + denom + ") 0)")
 	}
 }
